@@ -159,6 +159,38 @@ let handle_src (w : Stdlib.String.t list) : Stdlib.String.t =
             | SOk c -> "FAIL " ^ string_of_int (int_of_n c) ^ (if o = [] then "" else " OUTPUT " ^ hex o)
             | SErr w -> "ERR " ^ coqstr w)
        | SErr w -> "ERR " ^ coqstr w)
+  | ["hist"; ops] ->
+      (* library-level operations one after the other in ONE process image (the process layer of SrcRun5 is carried over):
+         enc,CM,HM,T,KEY,SEED,PLAIN ; dec,T,KEY,FILE ; ver,T,KEY,FILE -- results in the format of the single operations *)
+      let parse o =
+        (match String.split_on_char ',' o with
+         | ["enc"; cm; hm; t; k; seed; plain] ->
+             Some { Model.h_op = Model.WEnc; h_T = nat_of_int (int_of_string t); h_cm = z_of_int (int_of_string cm); h_hm = z_of_int (int_of_string hm);
+                    h_F = unhex plain; h_key = unhex k; h_extra = unhex seed }
+         | [("dec" | "ver") as w; t; k; f] ->
+             Some { Model.h_op = (if w = "dec" then Model.WDec else Model.WVer); h_T = nat_of_int (int_of_string t); h_cm = z_of_int (-1); h_hm = z_of_int (-1);
+                    h_F = unhex f; h_key = unhex k; h_extra = [] }
+         | _ -> None) in
+      let ops = List.map parse (String.split_on_char ';' ops) in
+      if List.mem None ops then "?" else begin
+        let ops = List.map (function Some o -> o | None -> assert false) ops in
+        let rs = Model.src_history (buf ()) (hbuf ()) ops (n_of_int (sched_seed ())) in
+        let show (o, r) =
+          (match r with
+           | SErr w -> "ERR " ^ coqstr w
+           | SOk (((ok, out), _), _) ->
+               (match o.Model.h_op with
+                | Model.WEnc -> (if ok then "OK " else "FAILED ") ^ hex out
+                | w ->
+                    let isdec = (w = Model.WDec) in
+                    if ok then (if isdec then "OK " ^ hex out else "OK -" ^ (if out = [] then "" else " OUTPUT " ^ hex out))
+                    else (match Model.src_verify (hbuf ()) o.Model.h_T o.Model.h_F o.Model.h_key with
+                          | SOk c -> "FAIL " ^ string_of_int (int_of_n c) ^ (if out = [] then "" else " OUTPUT " ^ hex out)
+                          | SErr w -> "ERR " ^ coqstr w))) in
+        let rec zip a b = match a, b with x :: a', y :: b' -> (x, y) :: zip a' b' | _ -> [] in
+        String.concat " ; " (List.map show (zip ops rs))
+        ^ (if List.length rs < List.length ops then " ; (history ended)" else "")
+      end
   | ["ver"; t; k; f] ->
       (match Model.src_verify (hbuf ()) (nat_of_int (int_of_string t)) (unhex f) (unhex k) with
        | SOk c -> if int_of_n c = 0 then "OK -" else "FAIL " ^ string_of_int (int_of_n c)
